@@ -106,7 +106,7 @@ impl Profile for EntryPointTwin {
                         (Doc::json(&json!({"tag": rng.word()})), None)
                     } else {
                         let h = pe.spec.of_kind(Kind::Instantiate).next().unwrap();
-                        let args = sg.args_for(rng, h, 0);
+                        let args = sg.args_for(rng, pe.spec.cid, h, 0);
                         (Doc::json(&doc_for(h, &args)), Some(Intent { hid: h.id(), args: Value::Object(args) }))
                     };
                     ops.push(Op::Instantiate { code, sender: rng.pick(accounts).clone(), msg, label: format!("i{}", sg.nonce()), admin: None, funds: vec![], salt: None, intent });
@@ -118,7 +118,7 @@ impl Profile for EntryPointTwin {
                     if overridden {
                         ops.push(Op::Migrate { target: c.addr.clone(), sender, code, msg: Doc::json(&ov_doc(rng)), intent: None });
                     } else if let Some(h) = e.spec.of_kind(Kind::Migrate).next() {
-                        let args = sg.args_for(rng, h, 0);
+                        let args = sg.args_for(rng, &c.cid, h, 0);
                         ops.push(Op::Migrate { target: c.addr.clone(), sender, code, msg: Doc::json(&doc_for(h, &args)), intent: Some(Intent { hid: h.id(), args: Value::Object(args) }) });
                     } else {
                         // no migrate handler and no override: the chain must get an error in both worlds
@@ -131,7 +131,7 @@ impl Profile for EntryPointTwin {
                     } else {
                         let hs: Vec<&HandlerSpec> = e.spec.of_kind(kind).collect();
                         let h = *rng.pick(&hs);
-                        let args = sg.args_for(rng, h, 0);
+                        let args = sg.args_for(rng, &c.cid, h, 0);
                         (Doc::json(&doc_for(h, &args)), Some(Intent { hid: h.id(), args: Value::Object(args) }))
                     };
                     ops.push(match kind {
